@@ -20,14 +20,20 @@ type c18List struct {
 	PeerIP string // allowed source
 	OutIP  string // disallowed source ("" = none exists)
 	InAddr []byte
+	// an IPv4 address just outside the allowed network (differs only in the bits right after a prefix that
+	// does not end on a byte boundary); nil = the generic outside address
+	NearOut4 []byte
 }
 
 var c18Lists = []c18List{
-	{"v4-24", []string{"10.0.0.0/24"}, "10.0.0.9", "10.0.0.21", "192.168.7.7", []byte{10, 0, 0, 77}},
-	{"v4+v6", []string{"10.0.0.0/24", "fd00::/8"}, "10.0.0.9", "10.0.0.21", "192.168.7.7", []byte{10, 0, 0, 77}},
-	{"loopback", []string{"::1/128", "127.0.0.0/8"}, "127.0.0.9", "127.0.0.21", "10.0.0.21", []byte{127, 0, 0, 77}},
-	{"all-v4", []string{"0.0.0.0/0"}, "10.0.0.9", "10.0.0.21", "fd00::21", []byte{10, 0, 0, 77}},
-	{"all-v6", []string{"::/0"}, "fd00::9", "fd00::21", "10.0.0.21", net.ParseIP("fd00::77")},
+	{"v4-24", []string{"10.0.0.0/24"}, "10.0.0.9", "10.0.0.21", "192.168.7.7", []byte{10, 0, 0, 77}, nil},
+	{"v4+v6", []string{"10.0.0.0/24", "fd00::/8"}, "10.0.0.9", "10.0.0.21", "192.168.7.7", []byte{10, 0, 0, 77}, nil},
+	{"loopback", []string{"::1/128", "127.0.0.0/8"}, "127.0.0.9", "127.0.0.21", "10.0.0.21", []byte{127, 0, 0, 77}, nil},
+	{"all-v4", []string{"0.0.0.0/0"}, "10.0.0.9", "10.0.0.21", "fd00::21", []byte{10, 0, 0, 77}, nil},
+	{"all-v6", []string{"::/0"}, "fd00::9", "fd00::21", "10.0.0.21", net.ParseIP("fd00::77"), nil},
+	// prefixes that do not end on a byte boundary; the outside addresses differ in the very next bit
+	{"v4-23", []string{"10.0.0.0/23"}, "10.0.0.9", "10.0.1.21", "10.0.2.21", []byte{10, 0, 1, 77}, []byte{10, 0, 2, 1}},
+	{"v4-13+v6-7", []string{"10.8.0.0/13", "fc00::/7"}, "10.9.0.9", "10.15.0.21", "10.16.0.21", []byte{10, 12, 0, 77}, []byte{10, 16, 0, 1}},
 }
 
 var c18AddrClasses = map[string][]byte{
@@ -106,6 +112,14 @@ func (l c18List) addrOf(class string) []byte {
 			return []byte(v4.To16())
 		}
 		return l.InAddr
+	}
+	if l.NearOut4 != nil {
+		switch class {
+		case "out4":
+			return l.NearOut4
+		case "mapped-out":
+			return []byte(net.IP(l.NearOut4).To16())
+		}
 	}
 	return c18AddrClasses[class]
 }
@@ -367,7 +381,7 @@ func runC18(run *Run, seed int64, l c18List, carriers []string, reclaim time.Dur
 
 func TestC18(t *testing.T) {
 	run := NewRun(t, "C18", "exploration",
-		"One real node with CIDRsAllowed configured (five allowlists: v4 /24, v4+v6, loopback, 0.0.0.0/0, ::/0). For every (address class in {inside, v4-mapped inside, outside v4, v4-mapped outside, outside v6, inside v6, absent (msgpack nil), lengths 0/3/5/15/17, 0.0.0.0} x prior state of the name {absent, alive, suspect, dead past reclaim time, left} x carrier {UDP alive from allowed source, compound, compressed, push/pull, join push/pull, UDP alive / compound from a disallowed source, UDP alive from an unparsable source, join push/pull from a disallowed host}) a higher-incarnation alive claim is injected; after each step every record, every Members() entry and every event so far must carry an address accepted by an independent net/netip predicate, and claims with a disallowed address or (for UDP alive) a disallowed source must leave the snapshot unchanged. Positive control: allowed claims are admitted (counted).")
+		"One real node with CIDRsAllowed configured (seven allowlists: v4 /24, v4+v6, loopback, 0.0.0.0/0, ::/0, and two with prefixes that do not end on a byte boundary - 10.0.0.0/23 and 10.8.0.0/13 + fc00::/7 - whose outside addresses differ from the network in the very next bit). For every (address class in {inside, v4-mapped inside, outside v4, v4-mapped outside, outside v6, inside v6, absent (msgpack nil), lengths 0/3/5/15/17, 0.0.0.0} x prior state of the name {absent, alive, suspect, dead past reclaim time, left} x carrier {UDP alive from allowed source, compound, compressed, push/pull, join push/pull, UDP alive / compound from a disallowed source, UDP alive from an unparsable source, join push/pull from a disallowed host}) a higher-incarnation alive claim is injected; after each step every record, every Members() entry and every event so far must carry an address accepted by an independent net/netip predicate, and claims with a disallowed address or (for UDP alive) a disallowed source must leave the snapshot unchanged. Positive control: allowed claims are admitted (counted).")
 	defer run.Finish()
 	run.Assume("an empty allowlist means allow-all in this code base (pinned by existing tests); the oracle is vacuous there and such configurations are not generated", "the node's own address is inside the allowlist")
 	carriersA := []string{"packet", "compound", "compress", "pp", "ppjoin", "packet-badsrc", "compound-badsrc", "packet-garbagesrc", "ppjoin-badsrc"}
@@ -396,7 +410,7 @@ func TestC18(t *testing.T) {
 					}
 				}
 			}
-			if !run.Mine(li+vi*5) || !run.Want(id) {
+			if !run.Mine(li+vi*7) || !run.Want(id) {
 				continue
 			}
 			run.Journal(id, "")
